@@ -53,8 +53,10 @@ def run(ctx):
     for aid, a in sorted(facts.adts.items()):
         for v in a["variants"]:
             for fl in v["fields"]:
-                if "MutexGuard" in fl["ty"]:
-                    ctx.ob("C01.1", "guard-stored|%s.%s" % (aid, fl["name"]), "no type stores a mutex guard", False, "%s:%d" % (a["file"], a["line"]))
+                # a stored guard matters here only if it can be a guard of the socket writer's mutex (a guard of the request queue's
+                # mutex kept in a helper struct has nothing to do with the order of responses)
+                if "MutexGuard" in fl["ty"] and (a["file"] == seq_file or "BufWriter" in fl["ty"] or re.search(r"MutexGuard<'\w+, W>", fl["ty"])):
+                    ctx.ob("C01.1", "guard-stored|%s.%s" % (aid, fl["name"]), "no type stores a guard of the socket writer's mutex", False, "%s:%d" % (a["file"], a["line"]))
     # only the turn-taking module locks that mutex
     for f, bb, t in facts.all_calls(lambda t: call_is(t, LOCK)):
         if re.search(r"BufWriter|SequentialWriter|Mutex<W>", " ".join(t.get("arg_tys") or [])):
